@@ -45,7 +45,8 @@ dbus_bool_t bus_connection_complete (DBusConnection *c, const DBusString *name, 
   if (!complete_ok) { e->name = DBUS_ERROR_NO_MEMORY; e->message = "m"; return 0; }
   c->active = 1; return 1;
 }
-dbus_bool_t dbus_message_set_sender (DBusMessage *m, const char *n) { return setsender_ok; }
+static int g_setsender_calls, o_setsender;
+dbus_bool_t dbus_message_set_sender (DBusMessage *m, const char *n) { g_setsender_calls++; o_setsender = ++g_order; return setsender_ok; }
 BusService *bus_registry_ensure (BusRegistry *r, const DBusString *n, DBusConnection *c, dbus_uint32_t f, BusTransaction *t, DBusError *e)
 { o_ensure = ++g_order; if (!ensure_ok) { e->name = DBUS_ERROR_NO_MEMORY; e->message = "m"; return 0; } return (BusService *) &tok; }
 /* bus_driver_send_welcome_message is a static of driver.c; its callees: */
@@ -66,7 +67,7 @@ static void reset (void)
 {
   vf_assert_as_assume = 0;
   g_len = g_nints = g_colon = g_dot = g_append_fail_at = g_appends = 0; lookups = 0; collisions = 0;
-  limits_ok = complete_ok = welcome_ok = ensure_ok = setsender_ok = 1; g_order = o_complete = o_ensure = 0;
+  limits_ok = complete_ok = welcome_ok = ensure_ok = setsender_ok = 1; g_order = o_complete = o_ensure = 0; g_setsender_calls = o_setsender = 0;
 }
 
 void harness (void)
@@ -126,6 +127,7 @@ void harness (void)
     {
       VF_ASSERT (conn.completes == 1, "the connection is given a name exactly once");
       VF_ASSERT (g_completed_with_major >= 1 && g_completed_with_minor >= 0, "a freshly minted one");
+      if (complete_ok) VF_ASSERT (g_setsender_calls == 1 && o_setsender > o_complete, "the Hello message itself is re-stamped with the name just assigned (monitors must not see the not-active placeholder)");
       if (o_ensure) VF_ASSERT (o_complete > 0 && o_complete < o_ensure, "the name is registered only after the connection carries it");
       VF_ASSERT ((ok != 0) == (complete_ok && setsender_ok && welcome_ok && ensure_ok), "Hello succeeds exactly when every step does");
       if (!ok) VF_ASSERT (err.name != 0, "failure carries an error");
